@@ -12,7 +12,7 @@ from .. import env
 
 env.setup()
 
-from ..core import short_exc  # noqa: E402
+from ..core import digest, exception_origin_in_repo, short_exc  # noqa: E402
 
 from batchie.data import (  # noqa: E402
     ExperimentSpace,
@@ -72,6 +72,8 @@ BOUNDS = {
         "supplied_mapping": "S = arity1 rows<=3 over S4, arity2 2 rows over S3; every non-empty sub-list; both rejection families",
         "control_names": CONTROLS,
         "sample_plate_names": NAMES4,
+        "memory": "every no-mapping screen also column-major (arity >= 2); read-only and big-endian arrays on the deterministic third of the cases whose digest is divisible by 3",
+        "merge_histories": "3 plate layouts (3-4 plates, interleaved rows): every sequence of <= 2 merges (<= 3 for 3 plates) of ordered plate pairs, with fresh and with stale plate handles",
     },
     "thorough": {
         "screens_no_mapping": [
@@ -170,6 +172,8 @@ def plan(tier, seed):
                 items.append({"k": "mapping", "alpha": alpha, "arity": arity, "rows": n, "control": c, "lo": lo, "hi": hi})
 
     items.append({"k": "enc1d"})
+    for li in range(len(MERGE_LAYOUTS)):
+        items.append({"k": "merge", "layout": li})
     for n in (1, 2, 3):
         screens("A9", 1, n)
     for n in (1, 2):
@@ -355,6 +359,13 @@ def _layout(a, memory):
         return np.asfortranarray(a)
     if memory == "strided":
         return np.repeat(a, 2, axis=0)[::2]
+    if memory == "readonly":
+        a = a.copy()
+        a.flags.writeable = False
+        return a
+    if memory == "bigendian":
+        # same values in non-native byte order (what a file written on another platform / an HDF5 '>f8' dataset gives)
+        return a.astype(a.dtype.newbyteorder(">")) if a.dtype.kind in "fU" else a
     return a
 
 
@@ -451,8 +462,76 @@ def nondense_applicable(ids, how):
     return len(np.asarray(ids)) >= 1
 
 
+# ------------------------------------------------------------------ plate ids of a live screen after Plate.merge
+MERGE_LAYOUTS = [["p_a", "p_b", "p_c"], ["p_b", "p_a", "p_b", "p_c", "p_d"], ["x", "y", "z", "w", "y", "x"]]
+
+
+def run_merge_case(case, col, verbose=False):
+    """Plate.merge is the documented in-place mutation of a screen: after ANY sequence of merges (also a merge issued twice,
+    or through a handle taken before an earlier merge) the plate ids are dense and equal exactly for equal plate names."""
+    pn = MERGE_LAYOUTS[case["layout"]]
+    n = len(pn)
+    spec = {"tn": [["a", "b"] for _ in range(n)], "td": [[1.0, 1.0 + (i % 2)] for i in range(n)], "sn": [f"s{i % 2}" for i in range(n)], "pn": pn}
+    s = build(spec, "")
+    handles = {str(p.plate_name): p for p in s.plates} if case["stale_handles"] else None
+    col.evaluations += 1
+    col.transitions += len(case["merges"])
+    for a, b in case["merges"]:
+        try:
+            if handles is not None:
+                pa, pb = handles[a], handles[b]
+            else:
+                cur = {str(p.plate_name): p for p in s.plates}
+                if a not in cur or b not in cur:
+                    col.refused += 1
+                    return
+                pa, pb = cur[a], cur[b]
+            pa.merge(pb)
+        except Exception as exc:  # noqa: BLE001
+            if not exception_origin_in_repo(exc):
+                raise
+            col.refused += 1
+            col.outcome("merge", "refused", type(exc).__name__)
+            return
+        names = [str(x) for x in np.asarray(s.plate_names)]
+        ids = [int(x) for x in np.asarray(s.plate_ids)]
+        if verbose:
+            print("after merge", (a, b), "names", names, "ids", ids)
+        uniq = sorted(set(ids))
+        if uniq != list(range(len(uniq))):
+            col.violation("C01|merge|plate-not-dense", f"plates {pn}, merges {case['merges']}: plate ids {ids} are not the dense range 0..n-1", case)
+            return
+        for i in range(n):
+            for j in range(i):
+                if (names[i] == names[j]) != (ids[i] == ids[j]):
+                    col.violation("C01|merge|plate-id-vs-name", f"plates {pn}, merges {case['merges']}: rows {j},{i} have names {names[j]!r},{names[i]!r} but ids {ids[j]},{ids[i]}", case)
+                    return
+        # the views agree with the ids
+        for p in s.plates:
+            sel = np.asarray(p.selection_vector, dtype=bool)
+            if len({names[i] for i in np.flatnonzero(sel)}) != 1:
+                col.violation("C01|merge|mixed-plate-view", f"plates {pn}, merges {case['merges']}: plate view {p.plate_id} selects rows of several plate names", case)
+                return
+    col.outcome("merge", tuple(np.asarray(s.plate_ids).tolist()))
+    col.nontriv("merge", case["layout"], tuple(map(tuple, case["merges"])), case["stale_handles"])
+
+
+def run_merge_item(item, col):
+    names = sorted(set(MERGE_LAYOUTS[item["layout"]]))
+    pairs = [(a, b) for a in names for b in names if a != b]
+    seqs = [[p] for p in pairs] + [[p, q] for p in pairs for q in pairs]
+    if len(names) <= 3:
+        seqs += [[p, q, r] for p in pairs for q in pairs for r in pairs]
+    for seq in seqs:
+        for stale in (False, True):
+            col.states += 1
+            run_merge_case({"kind": "merge", "layout": item["layout"], "merges": [list(x) for x in seq], "stale_handles": stale}, col)
+
+
 def run_case(case, col, verbose=False):
     kind = case["kind"]
+    if kind == "merge":
+        return run_merge_case(case, col, verbose)
     control = case.get("control", "")
     if kind == "enc1d":
         names = case["names"]
@@ -527,8 +606,12 @@ def run_case(case, col, verbose=False):
             print("sample_ids", np.asarray(s.sample_ids).tolist(), "plate_ids", np.asarray(s.plate_ids).tolist())
         _flag(col, case, res, _describe(spec, control))
         # the same rows handed over as column-major / strided arrays must be encoded identically
-        if arity >= 2 and len(spec["tn"]) >= 2 and case.get("memory") is None:
-            for mem in (("F", "strided") if _TIER["tier"] == "thorough" else ("F",)):
+        if case.get("memory") is None:
+            mems = (("F", "strided") if _TIER["tier"] == "thorough" else ("F",)) if arity >= 2 and len(spec["tn"]) >= 2 else ()
+            # ... and as read-only arrays / arrays in non-native byte order
+            # (quick tier: on the deterministic third of the cases whose digest is divisible by 3; thorough: on all)
+            extra = ("readonly", "bigendian") if _TIER["tier"] == "thorough" or int(digest(spec, control)[:6], 16) % 3 == 0 else ()
+            for mem in mems + extra:
                 col.evaluations += 1
                 try:
                     s2 = build(spec, control, memory=mem)
@@ -634,6 +717,8 @@ _TIER = {"tier": "quick"}
 def run_item(item, col, tier):
     _TIER["tier"] = tier
     k = item["k"]
+    if k == "merge":
+        return run_merge_item(item, col)
     if k == "enc1d":
         first = True
         for n in (1, 2, 3, 4):
